@@ -173,7 +173,7 @@ def cli_path(case, quiet):
 
 def impl(case):
     try:
-        with L.time_limit(12):
+        with L.time_limit(12 * int(__import__('os').environ.get('VERIF_LIMIT_MULT', '1'))):
             return _impl(case)
     except L.Timeout:
         return {"error": "hang", "exc": "Timeout", "msg": "operation sequence did not finish in 12 s"}
